@@ -149,15 +149,27 @@ pub enum Fmt {
     Unknown,
     Empty,
     EmptyUnknown,
+    /// no body under the BEVE / UTF-8 / raw-binary format tags (counted with `Empty`)
+    EmptyBeve,
+    EmptyUtf8,
+    EmptyRaw,
 }
 pub const FMT_NAMES: [&str; 7] = ["json", "beve", "utf8", "raw", "unknown", "empty", "empty+unknown-code"];
 
 impl Fmt {
     pub fn idx(self) -> usize {
-        self as usize
+        match self {
+            Fmt::EmptyBeve | Fmt::EmptyUtf8 | Fmt::EmptyRaw => Fmt::Empty as usize,
+            _ => self as usize,
+        }
     }
     pub fn name(self) -> &'static str {
-        FMT_NAMES[self.idx()]
+        match self {
+            Fmt::EmptyBeve => "empty+beve-code",
+            Fmt::EmptyUtf8 => "empty+utf8-code",
+            Fmt::EmptyRaw => "empty+raw-code",
+            _ => FMT_NAMES[self.idx()],
+        }
     }
 }
 
@@ -180,6 +192,9 @@ pub fn request(path: &str, fmt: Fmt, v: &Value) -> Option<(Message, Result<Optio
         Fmt::Unknown => (base(path).body_bytes(text.into_bytes()).body_format_code(UNKNOWN_FORMAT).build(), Err(())),
         Fmt::Empty => (base(path).body_format(BodyFormat::Json).build(), Ok(None)),
         Fmt::EmptyUnknown => (base(path).body_format_code(UNKNOWN_FORMAT).build(), Ok(None)),
+        Fmt::EmptyBeve => (base(path).body_format(BodyFormat::Beve).build(), Ok(None)),
+        Fmt::EmptyUtf8 => (base(path).body_bytes(Vec::new()).body_format(BodyFormat::Utf8).build(), Ok(None)),
+        Fmt::EmptyRaw => (base(path).body_format(BodyFormat::RawBinary).build(), Ok(None)),
     })
 }
 
@@ -570,7 +585,7 @@ impl Cfg {
     /// on a twin registry that received the same history.
     fn routed(&self, acc: &mut Acc, seed: &[Op], prefix_ops: &[Op], op: &Op, pre: &Model, direct: &LiveRes) {
         let (p, v, fmts): (&str, Value, &[Fmt]) = match op {
-            Op::Read(p) => (p, Value::Null, &[Fmt::Empty, Fmt::EmptyUnknown]),
+            Op::Read(p) => (p, Value::Null, &[Fmt::Empty, Fmt::EmptyUnknown, Fmt::EmptyBeve, Fmt::EmptyUtf8, Fmt::EmptyRaw]),
             Op::Send(p, v) => (p, v.clone(), &[Fmt::Json, Fmt::Beve, Fmt::Utf8, Fmt::Raw, Fmt::Unknown]),
             _ => return,
         };
@@ -584,7 +599,7 @@ impl Cfg {
             };
             // reference for unspecified result contents: the direct dispatch of the decoded value
             let direct_ref: Option<LiveRes> = match (fmt, &eq_op) {
-                (Fmt::Json | Fmt::Beve | Fmt::Empty, _) => Some(direct.clone()),
+                (Fmt::Json | Fmt::Beve | Fmt::Empty | Fmt::EmptyBeve | Fmt::EmptyUtf8 | Fmt::EmptyRaw, _) => Some(direct.clone()),
                 (Fmt::Utf8 | Fmt::Raw, Some(e)) => {
                     let d = self.twin(seed, prefix_ops);
                     let r = d.apply(e);
